@@ -175,3 +175,83 @@ func recvTypeOrNil(fn *types.Func) types.Type {
 	}
 	return sig.Recv().Type()
 }
+
+// walkerSiblings: the two tree walkers of package astvisitor — Walker (drives normalization, validation and planning) and
+// SimpleWalker (drives the printer) — descend into the same children of every node kind: for every walk<Kind> method that
+// both have, the fields of AST nodes they read and the walk methods they call are the same. A child list that one of
+// them forgets is never validated / normalized, resp. never printed.
+func walkerSiblings(r *fw.Run, rule string) {
+	p := r.Prog
+	pk := p.Pkg("astvisitor")
+	if pk == nil {
+		r.Error("%s: package astvisitor not loaded", rule)
+		return
+	}
+	info := pk.TypesInfo
+	type sets struct{ reads, calls map[string]bool }
+	collect := func(recv string) map[string]*sets {
+		out := map[string]*sets{}
+		for _, fi := range p.Funcs("astvisitor") {
+			if fi.Decl.Recv == nil || !strings.HasPrefix(fi.Name(), recv+".walk") {
+				continue
+			}
+			s := &sets{reads: map[string]bool{}, calls: map[string]bool{}}
+			out[fi.Obj.Name()] = s
+			fw.WalkAll(fi.Decl.Body, func(nd ast.Node) bool {
+				sel, ok := nd.(*ast.SelectorExpr)
+				if !ok {
+					return true
+				}
+				if v, s2 := fw.Field(info, sel); v != nil {
+					if pkgPath, tn := fw.FieldOwner(info, s2); strings.HasSuffix(pkgPath, "/pkg/ast") && tn != "Document" {
+						s.reads[tn+"."+v.Name()] = true
+					}
+				}
+				if sl := info.Selections[sel]; sl != nil && sl.Kind() == types.MethodVal && strings.HasPrefix(sel.Sel.Name, "walk") {
+					s.calls[sel.Sel.Name] = true
+				}
+				return true
+			})
+		}
+		return out
+	}
+	a, b := collect("Walker"), collect("SimpleWalker")
+	var names []string
+	for n := range a {
+		if b[n] != nil {
+			names = append(names, n)
+		}
+	}
+	sort.Strings(names)
+	for _, n := range names {
+		var diff []string
+		for k := range a[n].reads {
+			if !b[n].reads[k] {
+				diff = append(diff, k+" (read only by Walker)")
+			}
+		}
+		for k := range b[n].reads {
+			if !a[n].reads[k] {
+				diff = append(diff, k+" (read only by SimpleWalker)")
+			}
+		}
+		for k := range a[n].calls {
+			if !b[n].calls[k] {
+				diff = append(diff, k+"() (called only by Walker)")
+			}
+		}
+		for k := range b[n].calls {
+			if !a[n].calls[k] {
+				diff = append(diff, k+"() (called only by SimpleWalker)")
+			}
+		}
+		sort.Strings(diff)
+		pos := "-"
+		if fi := p.Func("astvisitor", "Walker."+n); fi != nil {
+			pos = fi.Pos()
+		}
+		r.Check(len(diff) == 0, rule, "walker-siblings/"+n, pos, "Walker."+n+" and SimpleWalker."+n+" descend into the same children",
+			"the two walkers disagree on: "+strings.Join(diff, ", ")+" — what only the SimpleWalker visits is printed but never validated or normalized; what only the Walker visits is validated but dropped by print")
+	}
+	r.Expect(rule, "walk methods that both walkers have", len(names), 31)
+}
